@@ -57,6 +57,17 @@ type Scenario struct {
 	//      (Set widens min/max beyond the layout when given more)
 	//   4  the zero value &geom.Bounds{}
 	//   5  NewBounds(layout of G).SetCoords(first half of BArgs, second half)
+	// Pre is applied to the object before anything is cloned: a clone is then
+	// taken of an object with a history (moved end offsets, pushes, spare
+	// capacity left by appends, a negative SRID, ...).
+	Pre []Mut `json:"pre,omitempty"`
+	// Quiet: nothing is observed between setting the owners up and the end of
+	// the programs (observing an object may itself change hidden state).
+	Quiet bool `json:"quiet,omitempty"`
+	// OldWrite (variant 0 only): right after cloning the original's owner
+	// writes ordinate I := V through the slice FlatCoords() returned BEFORE
+	// the clone was made.
+	OldWrite *Mut `json:"old_write,omitempty"`
 	BHow  int         `json:"bhow,omitempty"`
 	BL0   int         `json:"bl0,omitempty"`
 	BArgs mgeom.Coord `json:"bargs,omitempty"`
@@ -78,7 +89,7 @@ func (prop) Plan(tier string) []core.Phase {
 func (prop) Describe() core.Description {
 	return core.Description{
 		Level: "exploration",
-		Rule: "A scenario is an object of a cloneable type (Point, LineString, LinearRing, Polygon, MultiPoint, MultiLineString, MultiPolygon in XY/XYZ/XYM/XYZM/Layout(5), built through New*Flat, SetCoords or Push so that nil and empty slices both occur, optionally with Reserve()d spare capacity; Coord; Bounds), a choice of who the two owners are (original and clone, clone and clone-of-clone, two sibling clones, clones of two unrelated objects made one after the other), two mutation programs (write an ordinate through FlatCoords(), move or rewrite an end offset through Ends()/Endss(), Push, Reverse, TransformInPlace, SetCoords, SetSRID, Swap with a private third object; Coord.Set and index writes; Bounds.Set/SetCoords/Extend) and a seeded interleaving of the two owners. Phase 'seq' executes the interleaving sequentially and checks both objects against their private models after every step; phase 'race' also releases the two programs as unsynchronised goroutines in the -race binary. A run is non-trivial when both owners executed at least one in-place mutation.",
+		Rule: "A scenario is an object of a cloneable type (Point, LineString, LinearRing, Polygon, MultiPoint, MultiLineString, MultiPolygon in XY/XYZ/XYM/XYZM/Layout(5), built through New*Flat, SetCoords or Push so that nil and empty slices both occur, optionally with Reserve()d spare capacity; Coord; Bounds), a choice of who the two owners are (original and clone, clone and clone-of-clone, two sibling clones, clones of two unrelated objects made one after the other), two mutation programs (write an ordinate through FlatCoords(), move or rewrite an end offset through Ends()/Endss(), Push, Reverse, TransformInPlace, SetCoords, SetSRID, Swap with a private third object; Coord.Set and index writes; Bounds.Set/SetCoords/Extend) and a seeded interleaving of the two owners. In 30% of the geometry runs the object has a history before it is cloned (1-6 mutations of the same kinds: moved end offsets, pushes that leave spare capacity, a negative SRID); in 25% nothing is observed between setting the owners up and the end of both programs; in 20% of the original-and-clone runs the original's owner writes through the slice FlatCoords() had returned before the clone was made. Phase 'seq' executes the interleaving sequentially and checks both objects against their private models after every step; phase 'race' also releases the two programs as unsynchronised goroutines in the -race binary. A run is non-trivial when both owners executed at least one in-place mutation.",
 		StateMeasure: "distinct (kind, layout, emptiness pattern, mutation-kind sequence of both owners, interleaving) tuples",
 		Assumptions: []string{
 			"observation is raw: type, layout, stride, SRID, FlatCoords bits, Ends, Endss (a nil and an empty slice are the same value)",
@@ -87,7 +98,7 @@ func (prop) Describe() core.Description {
 		RealComponents: []string{"go-geom root package: Clone of all cloneable types (derived.gen.go), FlatCoords/Ends/Endss, Push, Reverse, TransformInPlace, SetCoords, SetSRID, Swap, Coord.Set, Bounds.Set/SetCoords/Extend", "Go race detector"},
 		StubComponents: []string{"the two owners (seeded mutation programs and their interleaving)"},
 		FaultKinds:     []string{"mut:ord", "mut:end", "mut:sameend", "mut:push", "mut:reverse", "mut:transform", "mut:setcoords", "mut:setsrid", "mut:swap", "mut:cidx", "mut:cset", "mut:bset", "mut:bsetcoords", "mut:bextend"},
-		Probes:         []string{"probe:multipolygon-endss-write", "probe:empty-object", "probe:both-owners-mutated-in-place", "probe:owner1-first", "probe:alternating", "probe:reserved-capacity", "probe:variant-0", "probe:variant-1", "probe:variant-2", "probe:variant-3"},
+		Probes:         []string{"probe:multipolygon-endss-write", "probe:empty-object", "probe:both-owners-mutated-in-place", "probe:owner1-first", "probe:alternating", "probe:reserved-capacity", "probe:variant-0", "probe:variant-1", "probe:variant-2", "probe:variant-3", "probe:bounds-dims!=layout-stride-or-promoted", "probe:cloned-after-a-history", "probe:nothing-observed-until-the-end", "probe:write-through-slice-from-before-clone", "probe:negative-srid"},
 	}
 }
 
@@ -152,11 +163,21 @@ func (prop) Decode(raw []byte) (any, error) {
 	if s.Variant != 0 && !isGeomKind(s.Kind) {
 		return nil, fmt.Errorf("variants are for geometries")
 	}
-	for w := 0; w < 2; w++ {
-		if len(s.Prog[w]) > 40 {
+	if len(s.Pre) > 16 || (len(s.Pre) > 0 || s.Quiet || s.OldWrite != nil) && !isGeomKind(s.Kind) {
+		return nil, fmt.Errorf("bad pre-history")
+	}
+	if s.OldWrite != nil && s.Variant != 0 {
+		return nil, fmt.Errorf("old-slice write needs the original as an owner")
+	}
+	for w := 0; w < 3; w++ {
+		prog := s.Pre
+		if w < 2 {
+			prog = s.Prog[w]
+		}
+		if len(prog) > 40 {
 			return nil, fmt.Errorf("program too long")
 		}
-		for _, m := range s.Prog[w] {
+		for _, m := range prog {
 			if m.Part != nil {
 				if m.Part.L < 1 || m.Part.L > 6 || !isGeomKind(m.Part.T) {
 					return nil, fmt.Errorf("bad part")
@@ -273,6 +294,38 @@ func (prop) Generate(r *prng.Rand, phase string) any {
 				m.Part = cfg.Gen(r, cloneable[r.Intn(3)], s.G.L, 0)
 			}
 			s.Prog[w] = append(s.Prog[w], m)
+		}
+	}
+	for w := 0; w < 2; w++ {
+		for i := range s.Prog[w] {
+			if s.Prog[w][i].K == "setsrid" {
+				s.Prog[w][i].I = []int{-1, 0, 1, 4326, 1 << 31, -32768}[r.Intn(6)]
+			}
+		}
+	}
+	if isGeomKind(s.Kind) {
+		if r.Chance(0.1) {
+			s.G.S = -1
+		}
+		if r.Chance(0.3) {
+			// a history before the clone: taken from the same mutation kinds
+			n := r.Range(1, 6)
+			for i := 0; i < n; i++ {
+				m := Mut{K: kinds[r.Intn(len(kinds))], I: r.Intn(64), J: r.Intn(64), V: mgeom.F(r.AnyFloatBits())}
+				switch m.K {
+				case "push":
+					m.Part = cfg.Gen(r, partOf[s.Kind], s.G.L, 0)
+				case "setcoords", "swap":
+					m.K = "ord"
+				case "setsrid":
+					m.I = []int{-1, 0, 4326, -7}[r.Intn(4)]
+				}
+				s.Pre = append(s.Pre, m)
+			}
+		}
+		s.Quiet = r.Chance(0.25)
+		if s.Variant == 0 && r.Chance(0.2) {
+			s.OldWrite = &Mut{K: "ord", I: r.Intn(64), V: mgeom.F(r.AnyFloatBits())}
 		}
 	}
 	total := len(s.Prog[0]) + len(s.Prog[1])
@@ -686,6 +739,44 @@ func (prop) Execute(scAny any, phase string, log *core.Log) core.Result {
 			res.Count("probe:reserved-capacity", 1)
 		}
 	}
+	// the object's history before it is cloned
+	rawG := rawOf(m.Clone())
+	if d := observeRaw(g).diff(rawG); d != "" {
+		res.Fail("build-differs", "build-differs:"+s.Kind, "the built object differs from its model: %s", d)
+		return res
+	}
+	if len(s.Pre) > 0 {
+		pre := &owner{g: g}
+		var px *raw
+		n := 0
+		for _, mut := range s.Pre {
+			if !rawG.apply(mut, &px) {
+				continue
+			}
+			if p := applyLib(pre, mut, rawG); p != "" {
+				res.Fail("panic", "panic:pre:"+mut.K+":"+core.PanicSite(p), "mutation %s of the original before cloning panicked: %s", mut.K, p)
+				return res
+			}
+			n++
+		}
+		if n > 0 {
+			res.Count("probe:cloned-after-a-history", 1)
+		}
+		if d := observeRaw(g).diff(rawG); d != "" {
+			res.Fail("own-mutation-wrong", "own-mutation-wrong:"+s.Kind+":pre", "after its history before cloning the original differs from its model: %s", d)
+			return res
+		}
+	}
+	if rawG.S < 0 {
+		res.Count("probe:negative-srid", 1)
+	}
+	var oldSlice []float64
+	if s.OldWrite != nil {
+		oldSlice = g.FlatCoords()
+	}
+	if s.Quiet {
+		res.Count("probe:nothing-observed-until-the-end", 1)
+	}
 	// clone is Clone plus the at-clone-time oracle: equal in type, layout,
 	// SRID, structure and every bit
 	clone := func(src geom.T, want *mgeom.Geom, what string) (geom.T, bool) {
@@ -693,6 +784,9 @@ func (prop) Execute(scAny any, phase string, log *core.Log) core.Result {
 		if p := core.Guard(func() { c = cloneGeom(src) }); p != "" {
 			res.Fail("panic", "panic:clone:"+core.PanicSite(p), "Clone (%s) of %s panicked: %s", what, want, p)
 			return nil, false
+		}
+		if s.Quiet {
+			return c, true
 		}
 		oo, errO := mgeom.Observe(src)
 		oc, errC := mgeom.Observe(c)
@@ -710,13 +804,10 @@ func (prop) Execute(scAny any, phase string, log *core.Log) core.Result {
 		}
 		return c, true
 	}
-	if d := observeRaw(g).diff(rawOf(m.Clone())); d != "" {
-		res.Fail("build-differs", "build-differs:"+s.Kind, "the built object differs from its model: %s", d)
-		return res
-	}
 	// who the two owners are
 	var o0, o1 geom.T
-	m0, m1 := m, m
+	r0, r1 := rawG, rawG
+	m1 := m
 	ok := true
 	switch s.Variant {
 	case 0:
@@ -738,6 +829,7 @@ func (prop) Execute(scAny any, phase string, log *core.Log) core.Result {
 			res.Fail("build", "build:"+m1.T, "building %s failed: %v", m1, err)
 			return res
 		}
+		r1 = rawOf(m1.Clone())
 		if o0, ok = clone(g, m, "O.Clone()"); ok {
 			o1, ok = clone(x, m1, "X.Clone() after O.Clone()")
 		}
@@ -748,21 +840,32 @@ func (prop) Execute(scAny any, phase string, log *core.Log) core.Result {
 	res.Count(fmt.Sprintf("probe:variant-%d", s.Variant), 1)
 	// both owners must hold exactly their model now (a later Clone must not
 	// have disturbed an earlier clone)
-	if d := observeRaw(o0).diff(rawOf(m0.Clone())); d != "" {
-		res.Fail("mutation-visible-through-other", "clone-disturbed-earlier-clone:"+s.Kind, "variant %d: after both owners were set up, owner 0's object differs from its model: %s", s.Variant, d)
-		return res
-	}
-	if d := observeRaw(o1).diff(rawOf(m1.Clone())); d != "" {
-		res.Fail("clone-differs", "clone-differs:"+s.Kind, "variant %d: owner 1's object differs from its model: %s", s.Variant, d)
-		return res
+	if !s.Quiet {
+		if d := observeRaw(o0).diff(r0); d != "" {
+			res.Fail("mutation-visible-through-other", "clone-disturbed-earlier-clone:"+s.Kind, "variant %d: after both owners were set up, owner 0's object differs from its model: %s", s.Variant, d)
+			return res
+		}
+		if d := observeRaw(o1).diff(r1); d != "" {
+			res.Fail("clone-differs", "clone-differs:"+s.Kind, "variant %d: owner 1's object differs from its model: %s", s.Variant, d)
+			return res
+		}
 	}
 	g, c := o0, o1
-	log.Addf("cloned %s layout %d: %d ordinates", s.Kind, m.L, len(g.FlatCoords()))
+	r0, r1 = r0.clone(), r1.clone()
+	if s.OldWrite != nil && len(oldSlice) > 0 {
+		// the original's owner still holds the slice FlatCoords() gave it
+		// before the clone existed, and writes through it now
+		i := s.OldWrite.I % len(oldSlice)
+		oldSlice[i] = float64(s.OldWrite.V)
+		r0.Flat[i] = float64(s.OldWrite.V)
+		res.Count("probe:write-through-slice-from-before-clone", 1)
+	}
+	log.Addf("cloned %s layout %d: %d ordinates", s.Kind, m.L, len(r0.Flat))
 	if phase == "race" {
-		return raceGeom(s, g, c, m0, m1, log)
+		return raceGeom(s, g, c, r0, r1, log)
 	}
 	owners := [2]*owner{{g: g}, {g: c}}
-	models := [2]*raw{rawOf(m0.Clone()), rawOf(m1.Clone())}
+	models := [2]*raw{r0, r1}
 	xs := [2]*raw{nil, nil}
 	pc := [2]int{}
 	mutated := [2]bool{}
@@ -794,6 +897,9 @@ func (prop) Execute(scAny any, phase string, log *core.Log) core.Result {
 			return false
 		}
 		log.Addf("owner %d %s", w, mut.K)
+		if s.Quiet {
+			return true
+		}
 		for k := 0; k < 2; k++ {
 			if d := observeRaw(owners[k].g).diff(models[k]); d != "" {
 				who := "its own"
@@ -822,6 +928,14 @@ func (prop) Execute(scAny any, phase string, log *core.Log) core.Result {
 	for w := 0; w < 2; w++ {
 		for pc[w] < len(s.Prog[w]) {
 			if !step(w) {
+				return res
+			}
+		}
+	}
+	if s.Quiet {
+		for k := 0; k < 2; k++ {
+			if d := observeRaw(owners[k].g).diff(models[k]); d != "" {
+				res.Fail("mutation-visible-through-other", "mutation-visible-through-other:"+s.Kind+":unobserved", "after both programs ran with nothing observed in between, owner %d's object differs from its private model: %s\n  object %s\n  model  %s", k, d, observeRaw(owners[k].g), models[k])
 				return res
 			}
 		}
@@ -856,10 +970,10 @@ func stateKey(s *Scenario) string {
 }
 
 // raceGeom runs the two programs as unsynchronised goroutines.
-func raceGeom(s *Scenario, g, c geom.T, m0, m1 *mgeom.Geom, log *core.Log) core.Result {
+func raceGeom(s *Scenario, g, c geom.T, r0, r1 *raw, log *core.Log) core.Result {
 	var res core.Result
 	owners := [2]*owner{{g: g}, {g: c}}
-	models := [2]*raw{rawOf(m0.Clone()), rawOf(m1.Clone())}
+	models := [2]*raw{r0, r1}
 	panics := [2]string{}
 	counts := [2]map[string]int64{{}, {}}
 	mutated := [2]bool{}
@@ -1175,6 +1289,10 @@ func execBounds(s *Scenario, phase string, log *core.Log) core.Result {
 					models[w].min[i], models[w].max[i] = math.Min(a[i], b[i]), math.Max(a[i], b[i])
 				}
 				objs[w].SetCoords(a, b)
+				// the two coordinates stay the caller's
+				for i := range a {
+					a[i], b[i] = -31337, 31337
+				}
 			case "bextend":
 				p := m.Part.Clone().Norm()
 				if p.L != src.L {
